@@ -493,7 +493,10 @@ theorem filtered_spec (keep : T → Bool) (t : T) :
   simp [preorder_spec, postorder_spec, levelorder_spec, leaf_spec]
 
 /-- internal-node variants yield exactly the non-leaves that pass the filter, the start node dropped iff it is
-    a seed (has no parent) and exclusion was requested -/
+    a seed (has no parent) and exclusion was requested.
+    NOTE: the right-hand side repeats the body of `internalKeep`, so this adds nothing beyond `preorder_spec`/`postorder_spec`;
+    it is kept only because obligations are never deleted.  The real statement is `internal_nodes_spec` /
+    `internal_nodes_driver_spec`. -/
 theorem internal_spec (excl : Bool) (hasParent : Bool) (keep : T → Bool) (t : T) :
     preIter (internalKeep excl t.id hasParent keep) t
       = (pre t).filter (fun x => (!excl || x.id != t.id || hasParent) && !x.cs.isEmpty && keep x)
@@ -545,14 +548,17 @@ theorem ageorder_perm (age : T → Frac) (desc : Bool) (t : T) :
   refine (stableSort_perm _ _).trans ?_
   rw [preorder_spec, filter_true]; simp [pre]
 
-/-- age order is monotone in the sort key and stable (ties keep their pre-order positions), for any order test that
-    compares a key — ascending uses the age itself, descending its negation -/
+/-- a fact about `stableSort` for an order test that compares an INTEGER key.  NOTE: it is not about `ageIter` (whose
+    comparator is `Frac.lt` on rationals) and is never instantiated; kept only because obligations are never deleted.
+    The statement about the generator the driver runs is `ageorder_spec` / `ageorder_driver_spec`. -/
 theorem ageorder_sorted_stable (k : T → Int) (lt : T → T → Bool) (hlt : ∀ a b, lt a b = decide (k a < k b)) (l : List T) :
     (stableSort lt l).Pairwise (fun a b => k a ≤ k b)
     ∧ ∀ v, (stableSort lt l).filter (fun a => k a == v) = l.filter (fun a => k a == v) :=
   ⟨stableSort_sorted k lt hlt l, fun v => stableSort_filter k lt hlt v l⟩
 
-/-- in-order on a binary tree visits every node exactly once (left subtree, node, right subtree by definition) -/
+/-- in-order on a binary tree visits every node exactly once (left subtree, node, right subtree by definition).
+    NOTE: this is about `inIter`, which is defined as the specification; the driver runs the recursion `inRun` —
+    see `inorder_spec` and `inorder_run_each_node_once` for the statement on that function. -/
 theorem inorder_each_node_once (keep : T → Bool) (t : T) (l : List T) (h : inIter (fun _ => true) t = some l) :
     l.Perm (T.nodes t) ∧ inIter keep t = some (l.filter keep) := by
   unfold inIter at h ⊢
@@ -734,7 +740,10 @@ example : ((preEdgeIter (fun e => internalKeep true 0 false (fun _ => true) e.he
 
 /-- `ancestor_iter` from the node `self` with id `start`: `self` first when `inclusive` and it passes, then the
 passing members of a chain `up` such that `self :: up` is a parent chain (each entry a child of the next) ending in
-the root of the tree — i.e. every proper ancestor once, nearest first, filtered -/
+the root of the tree — i.e. every proper ancestor once, nearest first, filtered.
+NOTE: `UpChain` is structural (`a ∈ b.cs`), so on a tree with repeated equal subtrees `up` is not pinned uniquely by
+this statement alone; on protocol trees (distinct ids, `protocol_ids_distinct`) `ancestor_pointer_refinement` determines
+the ids of the chain completely (= the pointer climb). -/
 theorem ancestor_spec (keep : T → Bool) (incl : Bool) (tree : T) (start : Nat) (self : T)
     (h : tree.find? start = some self) :
     ∃ up : List T, ancIter keep incl tree start
@@ -891,8 +900,10 @@ theorem levelorder_generations (keep : T → Bool) (t : T) :
     levelIter keep t = ((List.range (height t)).flatMap (fun k => genL k [t])).filter keep := by
   rw [levelorder_spec, bfs_eq_gens]
 
-/-- non-decreasing depth: the level-order output can be annotated with depths such that every node carries the depth
-it really has (`x ∈ genL d [t]`), every yielded node passes the filter, and the depths never decrease -/
+/-- non-decreasing depth: the level-order output can be annotated with depths such that every node is a member of the
+generation it is annotated with (`x ∈ genL d [t]`; membership — that a node lies in ONE generation only needs distinct
+ids and is not stated here), every yielded node passes the filter, and the depths never decrease.  The exact statement
+is `levelorder_generations`. -/
 theorem levelorder_depth_monotone (keep : T → Bool) (t : T) :
     ∃ ds : List (Nat × T), ds.map Prod.snd = levelIter keep t
       ∧ ds.Pairwise (fun a b => a.1 ≤ b.1)
@@ -941,5 +952,160 @@ example : applyZipTrace (.node 0 none none none [.node 1 none none none [.node 2
 
 example : dyck [] [.before 0, .leaf 1, .after 0] = true ∧ dyck [] [.before 0, .leaf 1, .after 2] = false
     ∧ dyck [] [.leaf 1, .after 0] = false := by decide
+
+end DendroModel.C15
+
+/-! ## final round (notes/audit2-q.md): "exactly once" as a statement about the printed ids, the in-order bridge to the
+function the driver runs, the driver's `hasParent`, and kernel-checked instances below the parser -/
+namespace DendroModel.C15.Aux
+open DendroModel DendroModel.C15 DendroModel.C15.ExtAux
+
+theorem nodup_of_perm_nodes {l : List T} {t : T} (hn : ((T.nodes t).map T.id).Nodup) (hp : l.Perm (T.nodes t))
+    (keep : T → Bool) : ((l.filter keep).map T.id).Nodup :=
+  List.Nodup.sublist (List.filter_sublist.map T.id) ((hp.map T.id).nodup_iff.mpr hn)
+
+/-- the chain `ancPath` returns has one entry exactly when the id asked for is the root's -/
+theorem ancPath_single (i : Nat) : ∀ (t : T) (p : List T), ancPath i t = some p → (p.length = 1 ↔ i = t.id)
+  | .node j x l s cs, p, h => by
+    simp only [ancPath] at h
+    by_cases hij : (i == j) = true
+    · simp [hij] at h; subst h
+      simpa [T.id] using hij
+    · simp only [hij] at h
+      cases hq : ancPathL i cs with
+      | none => rw [hq] at h; simp at h
+      | some q =>
+        rw [hq] at h
+        simp only [Bool.false_eq_true, if_false, Option.some.injEq] at h
+        subst h
+        have hne := (ancPathL_some i cs q hq).1
+        have hlen : 0 < q.length := List.length_pos_iff.mpr hne
+        have hij' : i ≠ j := by simpa using hij
+        simp only [List.length_append, List.length_cons, List.length_nil, T.id]
+        constructor
+        · intro h1; omega
+        · intro h2; exact absurd h2 hij'
+
+end DendroModel.C15.Aux
+
+namespace DendroModel.C15
+open DendroModel DendroModel.C15.Aux DendroModel.C15.ExtAux DendroModel.C15.BuildAux DendroModel.C15.PtrAux
+  DendroModel.C15.AgeAux
+
+/-- below the parser: every subtree `find?` can return from a tree built from an entry with parent -1 has distinct ids -/
+theorem build_subtree_ids_distinct (f : Nat) (par : Array Int) (tax : Array (Option Nat)) (lens : Array (Option Frac))
+    (labs : Array (Option String)) (r : Nat) (hr : par[r]! = -1) (start : Nat) (t : T)
+    (hf : (buildTree f par tax lens labs r).find? start = some t) : ((T.nodes t).map T.id).Nodup :=
+  List.Nodup.sublist ((find?_sublist start _ t hf).map T.id) (ids_nodup par tax lens labs f r (acyc_root par r hr))
+
+/-- "exactly once" about what the driver prints: on every subtree whose ids are distinct, every node/edge iterator the
+driver runs yields pairwise distinct ids — for every filter, any age assignment, both directions -/
+theorem visits_distinct_of_ids (t : T) (hn : ((T.nodes t).map T.id).Nodup) (keep : T → Bool) (ekeep : E → Bool)
+    (age : T → Frac) (desc incl : Bool) :
+    ((preIter keep t).map T.id).Nodup ∧ ((postIter keep t).map T.id).Nodup
+    ∧ ((levelIter keep t).map T.id).Nodup ∧ ((leafIter keep t).map T.id).Nodup
+    ∧ ((ageIter age desc incl keep t).map T.id).Nodup
+    ∧ (∀ l, inRun keep t = some l → (l.map T.id).Nodup)
+    ∧ ((preEdgeIter ekeep t).map (fun e => e.head.id)).Nodup ∧ ((postEdgeIter ekeep t).map (fun e => e.head.id)).Nodup := by
+  have hpre : ∀ k : T → Bool, ((preIter k t).map T.id).Nodup := fun k => by
+    rw [preorder_spec]; exact nodup_of_perm_nodes hn (List.Perm.refl _) k
+  have hpost : ∀ k : T → Bool, ((postIter k t).map T.id).Nodup := fun k => by
+    rw [postorder_spec]; exact nodup_of_perm_nodes hn (post_perm t) k
+  refine ⟨hpre keep, hpost keep, ?_, hpost _, ?_, ?_, ?_, ?_⟩
+  · rw [(filtered_spec keep t).2.2.1]
+    exact nodup_of_perm_nodes hn (each_node_once t).2.2 keep
+  · unfold ageIter
+    simp only [preorder_spec, filter_true]
+    exact nodup_of_perm_nodes hn ((Aux.stableSort_perm _ _).trans (List.Perm.refl _)) _
+  · intro l hl
+    rw [inorder_spec] at hl
+    cases hi : inord t with
+    | none => rw [hi] at hl; simp at hl
+    | some l0 =>
+      rw [hi] at hl
+      simp only [Option.map_some, Option.some.injEq] at hl
+      subst hl
+      exact nodup_of_perm_nodes hn (inord_perm t l0 hi) keep
+  · rw [(edge_order_spec ekeep t).1, List.map_map]
+    exact nodup_of_perm_nodes hn (List.Perm.refl _) (fun n => ekeep ⟨n⟩)
+  · rw [(edge_order_spec ekeep t).2, List.map_map]
+    exact nodup_of_perm_nodes hn (post_perm t) (fun n => ekeep ⟨n⟩)
+
+/-- … and the hypothesis holds for every start node of every tree the protocol parser returns -/
+theorem visits_distinct (toks : List String) (tree : T) (rest : List String) (start : Nat) (t : T)
+    (h : parseTree toks = some (tree, rest)) (hf : tree.find? start = some t)
+    (keep : T → Bool) (ekeep : E → Bool) (age : T → Frac) (desc incl : Bool) :
+    ((preIter keep t).map T.id).Nodup ∧ ((postIter keep t).map T.id).Nodup
+    ∧ ((levelIter keep t).map T.id).Nodup ∧ ((leafIter keep t).map T.id).Nodup
+    ∧ ((ageIter age desc incl keep t).map T.id).Nodup
+    ∧ (∀ l, inRun keep t = some l → (l.map T.id).Nodup)
+    ∧ ((preEdgeIter ekeep t).map (fun e => e.head.id)).Nodup ∧ ((postEdgeIter ekeep t).map (fun e => e.head.id)).Nodup :=
+  visits_distinct_of_ids t (protocol_subtree_ids_distinct toks tree rest start t h hf).1 keep ekeep age desc incl
+
+/-- non-vacuity, kernel-checked: a parent array with an unreachable 2-cycle, seed 0, start node 1 (found by `find?`);
+this instantiates every hypothesis of `build_subtree_ids_distinct` and hence of `visits_distinct_of_ids` -/
+example : ((T.nodes (buildTree 5 #[-1, 0, 1, 0, 5, 4] #[none, none, none, none, none, none] #[none, none, none, none, none, none]
+    #[none, none, none, none, none, none] 1)).map T.id).Nodup :=
+  build_subtree_ids_distinct 6 #[-1, 0, 1, 0, 5, 4] #[none, none, none, none, none, none] #[none, none, none, none, none, none]
+    #[none, none, none, none, none, none] 0 (by decide) 1 _ rfl
+
+/-- in-order on the function the driver runs (`inRun`): on a binary subtree the unfiltered run is a permutation of the
+nodes (each exactly once), and a filtered run is its subsequence (bridge from `inorder_each_node_once`, which is
+about the definitional `inIter`) -/
+theorem inorder_run_each_node_once (t : T) (l : List T) (h : inRun (fun _ => true) t = some l) :
+    l.Perm (T.nodes t) ∧ ∀ keep : T → Bool, inRun keep t = some (l.filter keep) := by
+  have h' : inIter (fun _ => true) t = some l := by rw [← h, inorder_spec]; rfl
+  refine ⟨(inorder_each_node_once (fun _ => true) t l h').1, fun keep => ?_⟩
+  rw [inorder_spec]
+  exact (inorder_each_node_once keep t l h').2
+
+example : (inRun (fun _ => true) (.node 0 none none none [.node 1 none none none [], .node 2 none none none []])).isSome
+    = true := by decide
+
+/-- what the driver's `hasParent := start != tree.id` (for a start that has not been spliced out) means in the model:
+the start node has no proper ancestor exactly when its id is the root's — i.e. `hasParent` is "the unfiltered
+ancestor chain is non-empty".  (The `det` flag — the harness has spliced the start out and made it the seed of its
+own `Tree` — is protocol input and is not derived from the tree.) -/
+theorem start_has_parent_iff (tree : T) (start : Nat) (self : T) (hf : tree.find? start = some self) :
+    ∃ up : List T, ancIter (fun _ => true) false tree start = some up ∧ (up = [] ↔ start = tree.id) := by
+  unfold ancIter
+  cases hp : ancPath start tree with
+  | none => rw [ancPath_none start tree hp] at hf; cases hf
+  | some p =>
+    have hs := ancPath_single start tree p hp
+    obtain ⟨hne, _, _, _⟩ := ancPath_some start tree p hp
+    cases p with
+    | nil => exact absurd rfl hne
+    | cons a up =>
+      refine ⟨up, by simp, ?_⟩
+      rw [← hs]
+      cases up <;> simp
+
+/-- `ancestor_pointer_refinement` below the parser, so that its hypotheses can be instantiated in the kernel: for a tree
+built from an entry `r` with parent -1, the model's chain is the pointer climb over the same array -/
+theorem ancestor_pointer_refinement_build (f : Nat) (par : Array Int) (tax : Array (Option Nat))
+    (lens : Array (Option Frac)) (labs : Array (Option String)) (r : Nat) (hr : par[r]! = -1)
+    (start : Nat) (self : T) (keep : Nat → Bool) (incl : Bool)
+    (hf : (buildTree f par tax lens labs r).find? start = some self) :
+    (ancIter (fun t => keep t.id) incl (buildTree f par tax lens labs r) start).map (List.map T.id)
+      = some (ancPtrIter keep incl par (buildTree f par tax lens labs r).size start) := by
+  obtain ⟨up, hanc, hch, hlast⟩ := ancestor_spec (fun t => keep t.id) incl _ start self hf
+  have hid : self.id = start := find?_id start _ self hf
+  have hsz := upChain_size _ up self hch hlast
+  have hpos := size_pos self
+  have hclimb := climb_chain par _ (fun b hb => build_linked par tax lens labs f r b hb)
+    (by rw [build_id]; exact hr) up self hch hlast (buildTree f par tax lens labs r).size (by omega)
+  rw [hanc]
+  simp only [Option.map_some, ancPtrIter, Option.some.injEq, List.map_append]
+  rw [← hid, hclimb, List.filter_map]
+  congr 1
+  by_cases hk : (incl && keep self.id) = true <;> simp [hk]
+
+/-- kernel-checked instance: array with an unreachable 2-cycle, start 2 (a grandchild of the seed), filter rejecting 1 -/
+example : (ancIter (fun t => t.id != 1) true (buildTree 6 #[-1, 0, 1, 0, 5, 4] #[none, none, none, none, none, none]
+      #[none, none, none, none, none, none] #[none, none, none, none, none, none] 0) 2).map (List.map T.id)
+    = some (ancPtrIter (fun i => i != 1) true #[-1, 0, 1, 0, 5, 4] (buildTree 6 #[-1, 0, 1, 0, 5, 4]
+      #[none, none, none, none, none, none] #[none, none, none, none, none, none] #[none, none, none, none, none, none] 0).size 2) :=
+  ancestor_pointer_refinement_build 6 #[-1, 0, 1, 0, 5, 4] _ _ _ 0 (by decide) 2 _ (fun i => i != 1) true rfl
 
 end DendroModel.C15
